@@ -79,6 +79,9 @@ def run(ctx):
     corr_texts = []
     for _ in range(n):
         text, items = build(rng, rng.randint(2, 7))
+        if rng.random() < 0.3 and "#include" not in text and "\\\n" not in text:
+            # CRLF line ends (directive lines and continuations under CRLF are C09's listed findings)
+            text = text.replace("\n", "\r\n")
         ctx.count(text, nontrivial=("/*" in text or "\\\n" in text))
         r, locs = locs_of(text)
         if r["result"]["k"] != "ok":
